@@ -78,8 +78,11 @@ G_Compatible(e, as, UU) ==
              Cls(c) == CompatClass(c.i > 0, SubSeq(as, 1, c.i), TRUE, SubSeq(as, c.i + 1, n), UU)
              \* per entry: <<sem, ok, ints>> evaluated once
              R == {<<e.compat[j], Sem(e.compat[j])>> : j \in DOMAIN e.compat}
-             bad == {p \in R : p[1].ok # p[2] \/ p[1].ints # (IF p[1].i = 0 THEN TRUE ELSE p[2])}
-         IN {<<"G_C12_Compatible", CDir(~p[2]) \o Cls(p[1])>> : p \in bad}
+             okBad   == {p \in R : p[1].ok # p[2]}
+             \* Intersects ignores keys the left side does not define ("undefined keys are allowed")
+             intsBad == {p \in R : p[1].ints # (IF p[1].i = 0 THEN TRUE ELSE p[2])}
+         IN {<<"G_C12_Compatible", CDir(p[1].ok) \o Cls(p[1])>> : p \in okBad}
+            \cup {<<"G_C12_Compatible", CDir(p[1].ints) \o Cls(p[1])>> : p \in intsBad}
             \cup {<<"G_C12_Compatible", "IsCompatible-disagrees-with-Compatible">> : p \in {q \in R : q[1].isc # q[1].ok}}
 
 \* serialisation: the entries admit exactly what the chain admits; re-parsing gives the same requirement and the
